@@ -34,7 +34,9 @@ def check_one(case, ctx, deep):
     o, p = case['o'], case['p']
     n, m = ref.n, ref.m
     rnd = gen._random.Random(repr((case['r'], n, m, ctx.seed)))
-    for _ in range(2 if deep else 1):
+    for rep_ in range(2 if deep else 1):
+        if rep_:
+            lib.interfere(case)   # other contexts created and queried in between (DESIGN.md 10.2)
         context = ctx.call('Context()', plain, lib.context_of, case)
         lattice = ctx.call('context.lattice', plain, lambda: context.lattice)
         members = list(lattice)
